@@ -18,10 +18,22 @@ dicts do; `d.KeyInj key` says that `key` (the code point, by which Python compar
 one-character strings) is injective on the alphabet.  Word order is `lexLt key` = Python's `<`
 on strings.  The functions are those a *fresh* object computes; C20 proves that caches never
 change them.
+
+Two clauses need care.  (1) "len of a finite language": the method `__len__` is `cardinality()`
+(`C13_cardinality`), but the builtin `len(dfa)` converts its result to a `Py_ssize_t`: from 2^63
+words on it raises `OverflowError` (`DFA.lenBuiltin`, Model/DFALen.lean).  `C13_len` is the
+statement that holds, `C13_len_full_fails` refutes the unrestricted one with a concrete finite
+language (open finding `C13:len-overflow-2^63`).  (2) "every such word is equally likely" is a
+statement about the OUTPUT of `randomWord`: `C13_random_output_iff` characterises the event
+`randomWord k cs = .ok w` and `C13_random_uniform_output` computes its probability, `1/count`,
+over the loop's own draw tree (every `randint(0, total-1)` result uniform on its range and
+independent of the earlier ones).
 -/
 import AutomataVerif.Proofs.Query
 import AutomataVerif.Proofs.Random
 import AutomataVerif.Proofs.Iter
+import AutomataVerif.Proofs.RandomSel
+import AutomataVerif.Model.DFALen
 import Mathlib.Order.Bounds.Basic
 import Mathlib.Data.Set.Finite.Basic
 import Mathlib.Data.List.Basic
@@ -30,6 +42,8 @@ import Mathlib.Data.Set.Card
 import Mathlib.Order.Interval.Finset.Nat
 import Mathlib.Tactic.FieldSimp
 import Mathlib.Algebra.Order.Field.Rat
+import Mathlib.Algebra.BigOperators.Ring.Finset
+import Mathlib.Algebra.BigOperators.Group.Finset.Piecewise
 
 namespace AV.Props.C13
 open AV AV.DFA
@@ -112,7 +126,10 @@ theorem C13_count_zero_iff (d : AV.DFA σ α) (hv : d.validate = .ok ()) (hd : d
 
 `randomWord d k cs` is `random_word(k)` where `cs` lists the successive results of
 `rng.randint(0, total - 1)`.  `InRange` is the contract of `randint`: every result is below the
-`total` of its step.  Uniformity is a counting statement about these results. -/
+`total` of its step.  Uniformity is a statement about these results: each is uniform on its
+range and independent of the earlier ones (`drawExp` / `drawProb`, section "the output
+distribution" below), and the event whose probability is computed is
+`d.randomWord k cs = .ok w` (`C13_random_output_iff`, `C13_random_uniform_output`). -/
 
 theorem cnt_pos_of_acceptsFrom {d : AV.DFA σ α} (wf : d.WF) (hd : d.IsDict) {q : σ} (hq : q ∈ d.states)
     {w : List α} (hw : d.acceptsFrom q w = true) : 0 < d.cnt w.length q := by
@@ -234,8 +251,10 @@ theorem wordProb_eq {d : AV.DFA σ α} (wf : d.WF) (hd : d.IsDict) :
       generalize (d.cnt (w.length + 1) q : ℚ) = y at h2 ⊢
       field_simp
 
-/-- **Uniformity**: every accepted word of length `k` is produced with probability exactly
-`1 / count_words_of_length(k)`, the same for all of them. -/
+/-- **Uniformity** (step-product form): every accepted word of length `k` has `wordProb` exactly
+`1 / count_words_of_length(k)`, the same for all of them.  That `wordProb` is the probability of
+the event "`random_word(k)` returns `w`" is `C13_wordProb_eq_output_prob`; the statement about
+the output itself is `C13_random_uniform_output`. -/
 theorem C13_random_uniform (d : AV.DFA σ α) (hv : d.validate = .ok ()) (hd : d.IsDict)
     (w : List α) (hw : w ∈ Lang d) :
     wordProb d d.init w = 1 / (d.countWordsOfLength w.length : ℚ) :=
@@ -266,6 +285,256 @@ theorem C13_random_zero (d : AV.DFA σ α) (hv : d.validate = .ok ()) (hd : d.Is
       | cons b w' =>
         rw [ih t ht hw (by simp)]
         simp
+
+
+/-! ## random_word: the output distribution -/
+
+/-- **Output characterisation**: with in-range `randint` results, `random_word(k)` returns `w`
+exactly when the results select `w` (`Sel`: the i-th result picks, count-weighted and in row
+order, an edge labelled with the i-th symbol of `w`; the walk ends in a final state). -/
+theorem C13_random_output_iff (d : AV.DFA σ α) (hv : d.validate = .ok ()) (k : Nat)
+    (cs : List Nat) (w : List α) (hin : d.InRange k d.init cs) :
+    d.randomWord k cs = .ok w ↔ d.Sel k d.init cs w :=
+  RandSel.randomWord_ok_iff_sel ((DFA.validate_eq_ok d).mp hv) k cs w hin
+
+/-- Selecting results are in range, and select an accepted word of length `k`. -/
+theorem C13_random_sel_sound (d : AV.DFA σ α) (hv : d.validate = .ok ()) (hd : d.IsDict) (k : Nat)
+    (cs : List Nat) (w : List α) (hs : d.Sel k d.init cs w) :
+    d.InRange k d.init cs ∧ d.randomWord k cs = .ok w ∧ w.length = k ∧ w ∈ Lang d := by
+  have wf := (DFA.validate_eq_ok d).mp hv
+  obtain ⟨hl, hacc⟩ := RandSel.sel_accepts hd k d.init cs w hs
+  exact ⟨RandSel.sel_inRange wf k d.init cs w wf.initOk hs, RandSel.randomWord_ok_of_sel wf k cs w hs,
+    hl, hacc⟩
+
+/-- Expected value of `f (c₁ … c_r)` when the loop runs from `q` with `r` symbols to go and every
+`randint(0, total - 1)` is uniform on its range and independent of the earlier ones: the loop's
+own draw tree (`total = _count_cache[r+1][q]`; next state = the edge picked by the result, or
+the same state on fall-through), each result weighted `1/total`. -/
+def drawExp (d : AV.DFA σ α) : Nat → σ → (List Nat → ℚ) → ℚ
+  | 0, _, f => f []
+  | r + 1, q, f =>
+    (∑ c ∈ Finset.range (d.cnt (r + 1) q),
+      match pickEdge (d.cnt r) (d.row q) c with
+      | some e => drawExp d r e.2 (fun cs => f (c :: cs))
+      | none => drawExp d r q (fun cs => f (c :: cs))) / (d.cnt (r + 1) q : ℚ)
+
+open Classical in
+/-- Probability of the event `E` about the vector of `randint` results. -/
+noncomputable def drawProb (d : AV.DFA σ α) (r : Nat) (q : σ) (E : List Nat → Prop) : ℚ :=
+  drawExp d r q (fun cs => if E cs then 1 else 0)
+
+omit [DecidableEq α] in
+/-- Only in-range result vectors of length `r` carry weight. -/
+theorem drawExp_congr (d : AV.DFA σ α) : ∀ (r : Nat) (q : σ) (f g : List Nat → ℚ),
+    (∀ cs, cs.length = r → d.InRange r q cs → f cs = g cs) → drawExp d r q f = drawExp d r q g := by
+  intro r
+  induction r with
+  | zero => intro q f g h; exact h [] rfl trivial
+  | succ r ih =>
+    intro q f g h
+    unfold drawExp
+    congr 1
+    apply Finset.sum_congr rfl
+    intro c hc
+    have hc' : c < d.cnt (r + 1) q := Finset.mem_range.mp hc
+    cases hp : pickEdge (d.cnt r) (d.row q) c with
+    | none =>
+      simp only
+      apply ih
+      intro cs hl _
+      apply h (c :: cs) (by simp [hl])
+      refine ⟨hc', ?_⟩
+      simp only [List.headD_cons, hp]
+    | some e =>
+      simp only
+      apply ih
+      intro cs hl hin
+      apply h (c :: cs) (by simp [hl])
+      refine ⟨hc', ?_⟩
+      simp only [List.headD_cons, hp, List.tail_cons]
+      exact hin
+
+omit [DecidableEq α] in
+theorem drawExp_zero (d : AV.DFA σ α) : ∀ (r : Nat) (q : σ), drawExp d r q (fun _ => 0) = 0 := by
+  intro r
+  induction r with
+  | zero => intro q; rfl
+  | succ r ih =>
+    intro q
+    unfold drawExp
+    have : ∀ c ∈ Finset.range (d.cnt (r + 1) q),
+        (match pickEdge (d.cnt r) (d.row q) c with
+          | some e => drawExp d r e.2 (fun _ => (0 : ℚ))
+          | none => drawExp d r q (fun _ => (0 : ℚ))) = 0 := by
+      intro c _
+      cases pickEdge (d.cnt r) (d.row q) c with
+      | none => exact ih q
+      | some e => exact ih e.2
+    rw [Finset.sum_eq_zero this]
+    simp
+
+/-- The weights add up to 1 (from a state with a positive count). -/
+theorem drawExp_const {d : AV.DFA σ α} (wf : d.WF) (x : ℚ) : ∀ (r : Nat) (q : σ), q ∈ d.states →
+    0 < d.cnt r q → drawExp d r q (fun _ => x) = x := by
+  intro r
+  induction r with
+  | zero => intro q _ _; rfl
+  | succ r ih =>
+    intro q hq hpos
+    unfold drawExp
+    have : ∀ c ∈ Finset.range (d.cnt (r + 1) q),
+        (match pickEdge (d.cnt r) (d.row q) c with
+          | some e => drawExp d r e.2 (fun _ => x)
+          | none => drawExp d r q (fun _ => x)) = x := by
+      intro c hc
+      have hc' : c < weight (d.cnt r) (d.row q) := by
+        have := Finset.mem_range.mp hc
+        rw [cnt_succ] at this; simpa [hq] using this
+      obtain ⟨e, he, hepos⟩ := pickEdge_lt_weight hc'
+      rw [he]
+      exact ih e.2 (row_vals_states wf (List.mem_map.mpr ⟨e, pickEdge_mem he, rfl⟩)) hepos
+    rw [Finset.sum_congr rfl this, Finset.sum_const, Finset.card_range, nsmul_eq_mul]
+    have h2 : (d.cnt (r + 1) q : ℚ) ≠ 0 := by exact_mod_cast Nat.pos_iff_ne_zero.mp hpos
+    field_simp
+
+omit [DecidableEq α] in
+theorem drawProb_congr (d : AV.DFA σ α) (r : Nat) (q : σ) (E E' : List Nat → Prop)
+    (h : ∀ cs, cs.length = r → d.InRange r q cs → (E cs ↔ E' cs)) :
+    drawProb d r q E = drawProb d r q E' := by
+  unfold drawProb
+  apply drawExp_congr
+  intro cs hl hin
+  have hiff := h cs hl hin
+  by_cases hE : E cs
+  · simp [hE, hiff.mp hE]
+  · have hE' : ¬ E' cs := fun h' => hE (hiff.mpr h')
+    simp [hE, hE']
+
+omit [DecidableEq α] in
+theorem drawProb_false (d : AV.DFA σ α) (r : Nat) (q : σ) : drawProb d r q (fun _ => False) = 0 := by
+  unfold drawProb
+  simp only [if_false]
+  exact drawExp_zero d r q
+
+open Classical in
+/-- The results that select a given accepted word have total weight `1 / count`. -/
+theorem drawProb_sel {d : AV.DFA σ α} (wf : d.WF) (hd : d.IsDict) :
+    ∀ (w : List α) (q : σ), q ∈ d.states → d.acceptsFrom q w = true →
+      drawProb d w.length q (fun cs => d.Sel w.length q cs w) = 1 / (d.cnt w.length q : ℚ) := by
+  intro w
+  induction w with
+  | nil =>
+    intro q _ hw
+    have hq : q ∈ d.finals := by simpa [DFA.acceptsFrom, DFA.isFinal] using hw
+    simp [drawProb, drawExp, Sel, hq, cnt_zero]
+  | cons a w ih =>
+    intro q hq hw
+    simp only [DFA.acceptsFrom, DFA.run_cons] at hw
+    cases hs : d.step? (some q) a with
+    | none => rw [hs, isFinal_run_cons_none] at hw; cases hw
+    | some t =>
+      rw [hs] at hw
+      have hmem : (a, t) ∈ d.row q := alookup_some_mem hs
+      have ht : t ∈ d.states := row_vals_states wf (alookup_some_val_mem hs)
+      have hpos := cnt_pos_of_acceptsFrom wf hd ht hw
+      have hpos' : 0 < d.cnt (w.length + 1) q :=
+        cnt_pos_of_acceptsFrom wf hd hq (w := a :: w) (by simp [DFA.acceptsFrom, DFA.run_cons, hs, hw])
+      have hsummand : ∀ c ∈ Finset.range (d.cnt (w.length + 1) q),
+          (match pickEdge (d.cnt w.length) (d.row q) c with
+            | some e => drawExp d w.length e.2
+                (fun cs => if d.Sel (w.length + 1) q (c :: cs) (a :: w) then (1 : ℚ) else 0)
+            | none => drawExp d w.length q
+                (fun cs => if d.Sel (w.length + 1) q (c :: cs) (a :: w) then (1 : ℚ) else 0)) =
+          if pickEdge (d.cnt w.length) (d.row q) c = some (a, t) then 1 / (d.cnt w.length t : ℚ) else 0 := by
+        intro c _
+        cases hp : pickEdge (d.cnt w.length) (d.row q) c with
+        | none =>
+          simp only [reduceCtorEq, if_false]
+          have : ∀ cs, ¬ d.Sel (w.length + 1) q (c :: cs) (a :: w) :=
+            fun cs => RandSel.not_sel_of_pick_none d _ q c cs _ hp
+          simp only [this, if_false]
+          exact drawExp_zero d _ q
+        | some e =>
+          simp only
+          by_cases hea : e.1 = a
+          · have het : e = (a, t) := by
+              have h1 := mem_row_lookup hd (pickEdge_mem hp)
+              rw [hea, hs] at h1
+              cases e; simp only at hea h1; cases h1; rw [hea]
+            subst het
+            simp only [if_true]
+            have : ∀ cs, d.Sel (w.length + 1) q (c :: cs) (a :: w) ↔ d.Sel w.length t cs w := by
+              intro cs
+              rw [RandSel.sel_cons_of_pick d _ q c cs a w hp]
+              simp
+            simp only [this]
+            exact ih t ht hw
+          · have hne : e ≠ (a, t) := fun h => hea (by rw [h])
+            simp only [Option.some.injEq, hne, if_false]
+            have : ∀ cs, ¬ d.Sel (w.length + 1) q (c :: cs) (a :: w) := by
+              intro cs h
+              exact hea ((RandSel.sel_cons_of_pick d _ q c cs a w hp).mp h).1
+            simp only [this, if_false]
+            exact drawExp_zero d _ e.2
+      have hexp : drawProb d (a :: w).length q (fun cs => d.Sel (a :: w).length q cs (a :: w)) =
+          (∑ c ∈ Finset.range (d.cnt (w.length + 1) q),
+            match pickEdge (d.cnt w.length) (d.row q) c with
+            | some e => drawExp d w.length e.2
+                (fun cs => if d.Sel (w.length + 1) q (c :: cs) (a :: w) then (1 : ℚ) else 0)
+            | none => drawExp d w.length q
+                (fun cs => if d.Sel (w.length + 1) q (c :: cs) (a :: w) then (1 : ℚ) else 0)) /
+            (d.cnt (w.length + 1) q : ℚ) := rfl
+      rw [hexp, Finset.sum_congr rfl hsummand, Finset.sum_ite, Finset.sum_const_zero, add_zero,
+        Finset.sum_const, nsmul_eq_mul]
+      have hsel : ((Finset.range (d.cnt (w.length + 1) q)).filter
+          fun c => pickEdge (d.cnt w.length) (d.row q) c = some (a, t)).card = d.cnt w.length t :=
+        C13_random_step d hd w.length q hq (a, t) hmem
+      rw [hsel]
+      have h1 : (d.cnt w.length t : ℚ) ≠ 0 := by exact_mod_cast Nat.pos_iff_ne_zero.mp hpos
+      simp only [List.length_cons]
+      field_simp
+
+/-- **Uniformity of the output.**  When every `randint` result is uniform on its range and
+independent of the earlier ones, the event "`random_word(k)` returns `w`" has probability exactly
+`1 / count_words_of_length(k)` for every accepted word `w` of length `k` — the same for all. -/
+theorem C13_random_uniform_output (d : AV.DFA σ α) (hv : d.validate = .ok ()) (hd : d.IsDict)
+    (w : List α) (hw : w ∈ Lang d) :
+    drawProb d w.length d.init (fun cs => d.randomWord w.length cs = .ok w) =
+      1 / (d.countWordsOfLength w.length : ℚ) := by
+  have wf := (DFA.validate_eq_ok d).mp hv
+  rw [drawProb_congr d w.length d.init _ (fun cs => d.Sel w.length d.init cs w)
+    (fun cs _ hin => C13_random_output_iff d hv w.length cs w hin)]
+  exact drawProb_sel wf hd w d.init wf.initOk hw
+
+/-- Every other word has probability 0 … -/
+theorem C13_random_output_zero (d : AV.DFA σ α) (hv : d.validate = .ok ()) (hd : d.IsDict)
+    (k : Nat) (w : List α) (hw : ¬ (w.length = k ∧ w ∈ Lang d)) :
+    drawProb d k d.init (fun cs => d.randomWord k cs = .ok w) = 0 := by
+  rw [drawProb_congr d k d.init _ (fun _ => False), drawProb_false]
+  intro cs _ hin
+  simp only [iff_false]
+  intro hrun
+  by_cases h0 : d.countWordsOfLength k = 0
+  · rw [C13_random_none d k cs h0] at hrun; cases hrun
+  · obtain ⟨w', hw', hl, hacc⟩ := C13_random_member d hv hd k cs h0 hin
+    rw [hw'] at hrun
+    cases hrun
+    exact hw ⟨hl, hacc⟩
+
+/-- … and the probabilities of all result vectors add up to 1 whenever a word of length `k`
+exists (`drawProb` is a probability distribution on the in-range result vectors). -/
+theorem C13_random_draw_total (d : AV.DFA σ α) (hv : d.validate = .ok ())
+    (k : Nat) (hpos : d.countWordsOfLength k ≠ 0) : drawProb d k d.init (fun _ => True) = 1 := by
+  have wf := (DFA.validate_eq_ok d).mp hv
+  unfold drawProb
+  simp only [if_true]
+  exact drawExp_const wf 1 k d.init wf.initOk (Nat.pos_of_ne_zero hpos)
+
+/-- The step-product `wordProb` of `C13_random_uniform` is the probability of the output event. -/
+theorem C13_wordProb_eq_output_prob (d : AV.DFA σ α) (hv : d.validate = .ok ()) (hd : d.IsDict)
+    (w : List α) (hw : w ∈ Lang d) :
+    wordProb d d.init w = drawProb d w.length d.init (fun cs => d.randomWord w.length cs = .ok w) := by
+  rw [C13_random_uniform d hv hd w hw, C13_random_uniform_output d hv hd w hw]
 
 
 /-! ## emptiness, minimum and maximum word length, finiteness -/
@@ -426,7 +695,9 @@ theorem levels_nodup (d : AV.DFA σ α) (hv : d.validate = .ok ()) (hd : d.IsDic
   omega
 
 /-- `cardinality()` returns the number of words of a finite language and raises
-`InfiniteLanguageException` for an infinite one; `len(dfa)` is the same call. -/
+`InfiniteLanguageException` for an infinite one; the method `__len__` (`d.len`) is the same call.
+The builtin `len(dfa)` is `d.lenBuiltin` (the interpreter converts the result of `__len__` to a
+`Py_ssize_t`): `C13_len` below. -/
 theorem C13_cardinality (d : AV.DFA σ α) (hv : d.validate = .ok ()) (hd : d.IsDict) :
     ((Lang d).Finite → d.cardinality = .ok (Set.ncard (Lang d))) ∧
     ((Lang d).Infinite → d.cardinality = .error (.lib .infiniteLanguageException)) ∧
@@ -476,6 +747,29 @@ theorem C13_cardinality (d : AV.DFA σ α) (hv : d.validate = .ok ()) (hd : d.Is
       rw [hmax2.mpr hinf]
     · rw [(lang_empty_iff d).mpr hall] at hinf
       exact absurd Set.finite_empty hinf
+
+/-! ## `len(dfa)` — the builtin, with CPython's `Py_ssize_t` conversion -/
+
+/-- `len(dfa)` returns the number of words of a finite language **when that number is below
+2^63** (`sys.maxsize + 1`); from 2^63 on the interpreter raises `OverflowError` although
+`__len__` (= `cardinality()`, `C13_cardinality`) returned the right number; an infinite language
+raises `InfiniteLanguageException`. -/
+theorem C13_len (d : AV.DFA σ α) (hv : d.validate = .ok ()) (hd : d.IsDict) :
+    ((Lang d).Finite → Set.ncard (Lang d) < 2 ^ 63 → d.lenBuiltin = .ok (Set.ncard (Lang d))) ∧
+    ((Lang d).Finite → 2 ^ 63 ≤ Set.ncard (Lang d) → d.lenBuiltin = .error .overflowError) ∧
+    ((Lang d).Infinite → d.lenBuiltin = .error (.exn (.lib .infiniteLanguageException))) := by
+  obtain ⟨hfin, hinf, hlen⟩ := C13_cardinality d hv hd
+  refine ⟨fun h hlt => ?_, fun h hge => ?_, fun h => ?_⟩
+  · unfold DFA.lenBuiltin
+    rw [hlen, hfin h]
+    have : decide (Set.ncard (Lang d) < ssizeLimit) = true := decide_eq_true (by unfold ssizeLimit; exact hlt)
+    simp only [toSsize, this]
+  · unfold DFA.lenBuiltin
+    rw [hlen, hfin h]
+    have : decide (Set.ncard (Lang d) < ssizeLimit) = false := decide_eq_false (by unfold ssizeLimit; omega)
+    simp only [toSsize, this]
+  · unfold DFA.lenBuiltin
+    rw [hlen, hinf h]
 
 /-! ## iteration -/
 
@@ -658,5 +952,80 @@ example : exD.iterRun id 3 = .ok ([[1], [0, 1], [1, 1], [0, 0, 1], [0, 1, 1], [1
 example : exD.InRange 2 exD.init [1, 0] := by decide
 example : exD.randomWord 2 [1, 0] = .ok [1, 1] ∧ exD.randomWord 2 [0, 0] = .ok [0, 1] := by decide
 example : exF.randomWord 3 [] = .error (.py .valueError) := by decide
+
+/-- The full claim of the English statement for `len`: every finite language has its number of
+words as `len`.  It is FALSE for the code as it stands (finding `C13:len-overflow-2^63`): see
+`C13_len_full_fails`; `C13_len` is the statement that holds. -/
+def C13_len_full : Prop :=
+  ∀ d : AV.DFA Nat Nat, d.validate = .ok () → d.IsDict → (Lang d).Finite →
+    d.lenBuiltin = .ok (Set.ncard (Lang d))
+
+/-- `DFA.of_length(set('abcdefgh'), min_length=0, max_length=21)`: states 0..22 (22 is the
+trap), all of 0..21 final: the (8^22 - 1)/7 = 10540996613548315209 ≥ 2^63 words of length ≤ 21
+over 8 symbols.  (The two-symbol instance of the finding, `of_length({'a','b'}, min_length=0,
+max_length=64)` with 2^65 - 1 words, is the one the harness replays; this one is cheaper for
+the kernel to evaluate.) -/
+def exBig : AV.DFA Nat Nat :=
+  { states := List.range 23, syms := List.range 8,
+    trans := (List.range 22).map (fun i => (i, (List.range 8).map fun a => (a, i + 1))) ++
+      [(22, (List.range 8).map fun a => (a, 22))],
+    init := 0, finals := List.range 22, allowPartial := false }
+
+theorem exBig_valid : exBig.validate = .ok () := by decide +kernel
+theorem exBig_dict : exBig.IsDict := ⟨by decide +kernel, by decide +kernel⟩
+theorem exBig_card : exBig.isFinite = .ok true ∧ exBig.cardinality = .ok ((8 ^ 22 - 1) / 7) ∧
+    exBig.lenBuiltin = .error .overflowError := by decide +kernel
+
+/-- The unrestricted claim about `len` fails: a finite language with at least 2^63 words. -/
+theorem C13_len_full_fails : ¬ C13_len_full := by
+  intro h
+  have hfin : (Lang exBig).Finite := by
+    obtain ⟨b, hb, hiff⟩ := C13_isfinite exBig exBig_valid exBig_dict
+    rw [exBig_card.1] at hb
+    cases hb
+    exact hiff.mp rfl
+  have := h exBig exBig_valid exBig_dict hfin
+  rw [exBig_card.2.2] at this
+  cases this
+
+example : exF.lenBuiltin = .ok 6 ∧ exD.lenBuiltin = .error (.exn (.lib .infiniteLanguageException)) := by
+  decide
+
+/-! ### random_word: output distribution, examples -/
+
+/-- `{00, 01, 10}` as a partial DFA: from the initial state the edge `0` carries two words, the
+edge `1` one. -/
+def exU : AV.DFA Nat Nat :=
+  { states := [0, 1, 2, 3], syms := [0, 1],
+    trans := [(0, [(0, 1), (1, 2)]), (1, [(0, 3), (1, 3)]), (2, [(0, 3)]), (3, [])],
+    init := 0, finals := [3], allowPartial := true }
+
+example : exU.validate = .ok () := by decide
+example : exU.Sel 2 0 [1, 0] [0, 0] := ⟨0, 1, [0], rfl, by decide, 0, 3, [], rfl, by decide, rfl, by decide⟩
+
+/-- All three words have probability 1/3 … -/
+example : drawProb exU 2 0 (fun cs => exU.randomWord 2 cs = .ok [0, 0]) = 1 / 3 ∧
+    drawProb exU 2 0 (fun cs => exU.randomWord 2 cs = .ok [1, 0]) = 1 / 3 := by
+  have h := fun w hw => C13_random_uniform_output exU (by decide) ⟨by decide, by decide⟩ w hw
+  have hc : exU.countWordsOfLength 2 = 3 := by decide
+  refine ⟨?_, ?_⟩
+  · have := h [0, 0] (show exU.accepts [0, 0] = true by decide)
+    simp only [List.length_cons, List.length_nil, Nat.zero_add, Nat.reduceAdd, hc] at this
+    exact_mod_cast this
+  · have := h [1, 0] (show exU.accepts [1, 0] = true by decide)
+    simp only [List.length_cons, List.length_nil, Nat.zero_add, Nat.reduceAdd, hc] at this
+    exact_mod_cast this
+
+/-- … although the NUMBER of in-range result vectors that produce a word is not the same for
+all words (`[0,0]` ← `[0,0]`, `[1,0]`; `[1,0]` ← `[2,0]` only): the vectors are not equally
+likely (the range of the second `randint` depends on the first result), which is why
+`C13_random_uniform_output` weights every vector by the product of `1/total` along its run
+instead of counting vectors. -/
+example :
+    let vecs := (List.range 3).flatMap fun a => (List.range 3).map fun b => [a, b]
+    (vecs.filter fun cs => decide (exU.InRange 2 0 cs) && decide (exU.randomWord 2 cs = .ok [0, 0])) =
+        [[0, 0], [1, 0]] ∧
+    (vecs.filter fun cs => decide (exU.InRange 2 0 cs) && decide (exU.randomWord 2 cs = .ok [1, 0])) =
+        [[2, 0]] := by decide
 
 end AV.Props.C13
